@@ -7,10 +7,8 @@ import apigen, genrun, libhost
 # generator: APIs per the quantifier (several services, keyword-named and internal methods,
 # reserved-word fields) x transports in {grpc, rest, grpc+rest}
 
-# (a package without a namespace component, e.g. `solo.v2`, crashes setup.py.j2 — `namespace_packages|first` on an
-#  empty tuple — before any artefact exists: C01/C11's subject, excluded here)
 PACKAGES = [("acme.lib.v1", "acme/lib/v1"), ("google.cloud.bookstore.v1beta1", "google/cloud/bookstore/v1beta1"),
-            ("acme.lib", "acme/lib"), ("acme.inventory.v1p1beta1", "acme/inventory/v1p1beta1")]
+            ("acme.lib", "acme/lib"), ("acme.inventory.v1p1beta1", "acme/inventory/v1p1beta1"), ("solo.v2", "solo/v2")]
 TRANSPORTS = ["grpc", "rest", "grpc+rest", "rest+grpc"]
 # (a service whose snake_case name is a Python keyword — `Import`, `Class`, `Lambda` — makes the package
 #  unimportable: `from .services.import import ImportClient`; C12/C01's subject, excluded here)
@@ -66,7 +64,10 @@ def gen_spec(r, idx, transport=None):
     pkg, pdir = r.pick(PACKAGES)
     spec = {"package": pkg, "dir": pdir, "transport": transport or TRANSPORTS[idx % len(TRANSPORTS)],
             "messages": [], "services": [], "two_files": r.maybe(0.4), "namespace_opt": None, "name_opt": None}
-    if r.maybe(0.15):
+    if r.maybe(0.15) or pkg.count(".") < 2:
+        # a proto package without a namespace component (`solo.v2`) generates since 71dd1fd, but its package
+        # __init__ reads `from .solo_v2 import gapic_version` (module_namespace|join('.') + "." + …) and cannot be
+        # imported: C01's subject; here such packages always get a namespace option (corpus probe: no_namespace_package)
         spec["namespace_opt"] = r.pick(["corp", "corp.cloud"])
     if r.maybe(0.15):
         spec["name_opt"] = r.pick(["shelfware", "BookKit"])
@@ -74,7 +75,7 @@ def gen_spec(r, idx, transport=None):
     snames = []
     while len(snames) < nsvc:
         s = r.pick(SERVICE_NAMES)
-        # `Foo` next to `FooAsync` makes two classes called FooAsyncClient: excluded (probed in the corpus)
+        # the pool has no pair `Foo` / `FooAsync` (two classes called FooAsyncClient: hypothesis ClassNamesDistinct)
         if s not in snames:
             snames.append(s)
     used_rpc = {}        # nocase(name) -> (name, request message)
@@ -113,7 +114,7 @@ def gen_spec(r, idx, transport=None):
         r.pick(allm)["cs"] = True        # client streaming: gRPC only
     inject = r.random()
     if inject < 0.06:
-        # RPC names equal up to letter case (inside the quantifier; known finding of the fix-up table)
+        # RPC names equal up to letter case (inside the quantifier; repaired by the C15 fix: commit)
         cand = [(s, m) for s in spec["services"] for m in s["methods"]
                 if sum(1 for c in m["name"][1:] if c.isupper()) >= 1 and "_" not in m["name"] and m["name"][0].isupper()]
         if cand:
@@ -150,7 +151,7 @@ def corpus_specs():
         return {"package": "acme.lib.v1", "dir": "acme/lib/v1", "transport": transport, "messages": [], "services": [],
                 "two_files": False, "namespace_opt": None, "name_opt": None}
     out = []
-    # (1) RPC names that differ only in case: Jinja's unique() is case-insensitive  [inside the quantifier]
+    # (1) RPC names that differ only in case: regression input of the C15 fix: commit (unique(case_sensitive=True))
     s = base()
     s["messages"] = [{"name": "GetBookRequest", "fields": [dict(name="name", type="string", required=True, repeated=False, optional=False, oneof=None, map=False)]},
                      {"name": "GetbookRequest", "fields": [dict(name="isbn", type="string", required=False, repeated=False, optional=False, oneof=None, map=False),
@@ -166,11 +167,11 @@ def corpus_specs():
     s["services"] = [{"name": "Library", "methods": [{"name": "GetBook", "input": "GetBookRequest", "internal": False, "ss": False, "cs": False, "lro": False}]},
                      {"name": "Archive", "methods": [{"name": "GetBook", "input": "ArchiveGetBookRequest", "internal": False, "ss": False, "cs": False, "lro": False}]}]
     out.append(("shared_rpc_name", s))
-    # (3) services Foo and FooAsync: FooAsyncClient twice (hypothesis ClassNamesDistinct)
+    # (3a) excluded point, informational: proto package without a namespace component
     s = base("grpc")
-    s["services"] = [{"name": "Foo", "methods": [{"name": "Ping", "input": "google.protobuf.Empty", "internal": False, "ss": False, "cs": False, "lro": False}]},
-                     {"name": "FooAsync", "methods": [{"name": "Pong", "input": "google.protobuf.Empty", "internal": False, "ss": False, "cs": False, "lro": False}]}]
-    out.append(("class_name_clash", s))
+    s["package"], s["dir"] = "solo.v2", "solo/v2"
+    s["services"] = [{"name": "Library", "methods": [{"name": "Ping", "input": "google.protobuf.Empty", "internal": False, "ss": False, "cs": False, "lro": False}]}]
+    out.append(("no_namespace_package", s))
     # (3b) extended operation with the gRPC transports: the asyncio client only has `insert_unary`
     for tr in ("grpc+rest", "rest"):
         s = base(tr)
@@ -582,12 +583,25 @@ def run_spec(ctx, spec, label, probe=None):
                     py.append(c[0] if len(c) == 1 else n)
                 expected.append([p for p, (_, rq) in zip(py, fl) if rq] + [p for p, (_, rq) in zip(py, fl) if not rq])
             if name in clash:
-                # RPC names equal up to letter case: each needs its own key; which key is whose is not decided here
-                group = {n for n in all_names if n.lower() == name.lower()}
-                gk = {k for n in group for k in tdict if nocase(k) == nocase(n)}
-                if len(gk) < len(group) and name == min(group):
-                    fails.append(("fixup-missing-rpc:case-insensitive-unique",
-                                  f"METHOD_TO_PARAMS has {len(gk)} entr{'y' if len(gk) == 1 else 'ies'} {sorted(gk)} for the {len(group)} RPC names {sorted(group)}"))
+                # RPC names equal up to letter case: each has its own entry; as a group, the entries carry the
+                # groups' request orders (which key belongs to which name is the snake_case function's business)
+                group = sorted(n for n in all_names if n.lower() == name.lower())
+                if name != group[0]:
+                    continue
+                gk = sorted(k for k in tdict if any(nocase(k) == nocase(n) for n in group))
+                if len(gk) != len(group):
+                    fails.append(("fixup-missing-rpc", f"METHOD_TO_PARAMS has {len(gk)} entr{'y' if len(gk) == 1 else 'ies'} {gk} for the {len(group)} RPC names {group}"))
+                    continue
+                want = []
+                for n in group:
+                    for m in by_rpc_name[n][:1]:
+                        fl = input_fields(spec, m)
+                        emitted = (fields_of.get(m["input"]) or []) if not m["input"].startswith("google.") else []
+                        py = [([e for e in emitted if e in (fn, fn + "_")] or [fn])[0] for fn, _ in fl]
+                        want.append([q for q, (_, rq) in zip(py, fl) if rq] + [q for q, (_, rq) in zip(py, fl) if not rq])
+                if all(len(by_rpc_name[n]) == 1 for n in group) and \
+                        sorted(json.dumps(tdict[k]) for k in gk) != sorted(json.dumps(w) for w in want):
+                    fails.append(("fixup-params", f"{group}: table {[tdict[k] for k in gk]}, required-first declaration orders {want}"))
                 continue
             if len(cands) != 1:
                 fails.append(("fixup-missing-rpc", f"METHOD_TO_PARAMS has {len(cands)} entries for RPC {name!r} (keys {sorted(tdict)[:12]})"))
@@ -630,8 +644,8 @@ def run_spec(ctx, spec, label, probe=None):
 
 
 # excluded points that lie inside the property's own quantifier: failures are reported under these key prefixes
-PROBE_KEYS = {"class_name_clash": ("class-name-clash", {"method-missing:grpc-async", "client-kind-class:grpc-async"}),
-              "extended_operation_grpc_rest": ("extended-operation-async-method-missing", {"method-missing:grpc-async"})}
+INFORMATIONAL = {"no_namespace_package"}    # outside this property's subject: counted, never reported
+PROBE_KEYS = {"extended_operation_grpc_rest": ("extended-operation-async-method-missing", {"method-missing:grpc-async"})}
 
 
 def snake_t2(ctx, r, n):
@@ -686,6 +700,9 @@ def _run(ctx):
     ctx.assume("one target proto package without sub-packages: service names are pairwise distinct (WF)")
     ctx.assume("RPC names are pairwise distinct up to case/underscores inside a service's snake_case image (two RPCs mapping to one python method name are C12's subject)")
     ctx.assume("no request message has both `x` and `x_` (python-level field names pairwise distinct)")
+    ctx.assume("the library package has a namespace component (proto package `solo.v2` without a namespace option emits `from .solo_v2 import gapic_version` in its __init__ and is not importable: C01's subject; probed informationally)")
+    ctx.assume("no service whose snake_case name is a Python keyword (`from .services.import import ImportClient`: C12/C01's subject)")
+    ctx.assume("exported client class names are pairwise distinct (ClassNamesDistinct): no service `FooAsync` next to a service `Foo` — both would own a class FooAsyncClient (Props.C15.class_name_clash_counterexample; not generated)")
     ctx.assume("extended-operation RPCs (google.cloud.operation_service) are generated with transport=rest only; with gRPC transports the asyncio client only has `<m>_unary` (Props.C15.names_exist_extended_operation_async_counterexample; corpus probe, known finding)")
     r = ctx.rng("apis")
     # corpus first
@@ -698,9 +715,9 @@ def _run(ctx):
                     blob = json.load(fh)
                 builtin[fn[:-5]] = blob.get("payload", blob)["spec"]
     for name, spec in sorted(builtin.items()):
-        run_spec(ctx, copy.deepcopy(spec), f"corpus:{name}", probe=name if name in PROBE_KEYS else None)
+        run_spec(ctx, copy.deepcopy(spec), f"corpus:{name}", probe=name if name in PROBE_KEYS or name in INFORMATIONAL else None)
     snake_t2(ctx, ctx.rng("snake"), ctx.n(200, 3000))
-    for i in range(ctx.n(18, 420)):
+    for i in range(ctx.n(18, 360)):
         spec = gen_spec(r, i)
         run_spec(ctx, spec, f"api{i}")
 
@@ -741,8 +758,8 @@ CLAIM = dict(
           '(model of client.py.j2 / async_client.py.j2; hypotheses: exported class names distinct, no extended operations for '
           'grpc-async), that proto and library package are recorded, that legacy_flattened_fields is the stable partition '
           '"required first, otherwise declaration order" and a permutation of the request fields, and that the fix-up table has an '
-          'entry for every RPC name up to letter case (exactly, when RPCs sharing a lower-cased name share their request fields). '
-          'Counterexample theorems: case-insensitive unique(), shared RPC names, extended operations on the asyncio client, '
+          'entry for every RPC name (carrying exactly that RPC\'s fields when RPCs sharing a name share their request fields). '
+          'Regression theorem for the repaired case-insensitive unique(); counterexample theorems: shared RPC names, extended operations on the asyncio client, '
           'Foo/FooAsync class clash, duplicate service names. Tie: T2 API.gapic_metadata, client_name, async_client_name, '
           'client_method_name, to_snake_case, legacy_flattened_fields vs the model on generated APIs; T3 the emitted '
           'gapic_metadata.json and METHOD_TO_PARAMS (AST + import with libcst) vs the model and, independent of the model, vs '
@@ -751,5 +768,5 @@ CLAIM = dict(
     technique='Lean 4 theorems (list permutation / no-duplicate arguments over a get_or_create model) + differential T2/T3 against the generator and the emitted package',
     design='7.15',
     note=('Naming (module namespace, versioned module name) is read from the real Naming object and is C11\'s subject. '
-          'Jinja evaluation of the fix-up template is reached only through T3. Known finding: Jinja unique() is case-insensitive.'),
+          'Jinja evaluation of the fix-up template is reached only through T3. Known finding: extended-operation RPCs on the asyncio client (gRPC transports).'),
 )
